@@ -1,6 +1,9 @@
 import ScryerModel.Model.Graph
 import Mathlib.Logic.Relation
 import Mathlib.Data.List.Basic
+import Mathlib.Data.Finset.Card
+import Mathlib.Data.Finset.Range
+import Mathlib.Data.Finset.Prod
 /-! Lemmas about the graph algorithms of `Model/Graph.lean` (C24). -/
 namespace Scryer.Graph
 
@@ -28,5 +31,916 @@ theorem fin_mono (g : Graph) {k k' : Nat} (hk : k ≤ k') {i : Nat} (h : fin g k
   induction hk with
   | refl => exact h
   | step _ ih => exact fin_succ g _ i ih
+
+
+theorem nodup_length_le {l : List Nat} {n : Nat} (hnd : l.Nodup) (h : ∀ x ∈ l, x < n) :
+    l.length ≤ n := by
+  have := Finset.card_le_card (s := l.toFinset) (t := Finset.range n)
+    (by intro x hx; simp at hx ⊢; exact h x hx)
+  rwa [List.toFinset_card_of_nodup hnd, Finset.card_range] at this
+
+theorem node_str_lt {g : Graph} {i f as} (h : node g i = .str f as) : i < g.size := by
+  by_contra hlt
+  have : node g i = .var := by
+    unfold node
+    simp [Array.getD, show ¬ i < g.size from hlt]
+  rw [this] at h
+  cases h
+
+/-! ## reachability -/
+
+def Edge (g : Graph) (i c : Nat) : Prop := ∃ f as, node g i = .str f as ∧ c ∈ as
+
+abbrev Reach (g : Graph) := Relation.ReflTransGen (Edge g)
+abbrev ReachP (g : Graph) := Relation.TransGen (Edge g)
+
+/-- no cycle is reachable from `r`. -/
+def NoCycle (g : Graph) (r : Nat) : Prop := ¬ ∃ x, Reach g r x ∧ ReachP g x x
+
+/-- the term denoted by `r` is a finite tree. -/
+def Finite (g : Graph) (r : Nat) : Prop := ∃ k, fin g k r = true
+
+theorem fin_edge {g : Graph} {k i c} (h : fin g k i = true) (e : Edge g i c) :
+    ∃ k', k' < k ∧ fin g k' c = true := by
+  obtain ⟨f, as, hn, hc⟩ := e
+  cases k with
+  | zero => simp [fin] at h
+  | succ k =>
+    rw [fin, hn] at h
+    simp only [List.all_eq_true] at h
+    exact ⟨k, Nat.lt_succ_self k, h c hc⟩
+
+theorem fin_reachP {g : Graph} {i j} (p : ReachP g i j) :
+    ∀ {k}, fin g k i = true → ∃ k', k' < k ∧ fin g k' j = true := by
+  induction p with
+  | single e => intro k h; exact fin_edge h e
+  | tail _ e ih =>
+    intro k h
+    obtain ⟨k1, hk1, h1⟩ := ih h
+    obtain ⟨k2, hk2, h2⟩ := fin_edge h1 e
+    exact ⟨k2, Nat.lt_trans hk2 hk1, h2⟩
+
+theorem fin_no_self {g : Graph} : ∀ k i, fin g k i = true → ¬ ReachP g i i := by
+  intro k
+  induction k using Nat.strong_induction_on with
+  | _ k ih =>
+    intro i h p
+    obtain ⟨k', hk', h'⟩ := fin_reachP p h
+    exact ih k' hk' i h' p
+
+theorem fin_reach {g : Graph} {r x} (p : Reach g r x) :
+    ∀ {k}, fin g k r = true → ∃ k', fin g k' x = true := by
+  induction p with
+  | refl => intro k h; exact ⟨k, h⟩
+  | tail _ e ih =>
+    intro k h
+    obtain ⟨k1, h1⟩ := ih h
+    obtain ⟨k2, _, h2⟩ := fin_edge h1 e
+    exact ⟨k2, h2⟩
+
+theorem finite_noCycle {g : Graph} {r} (h : Finite g r) : NoCycle g r := by
+  obtain ⟨k, hk⟩ := h
+  rintro ⟨x, hx, hc⟩
+  obtain ⟨k', hk'⟩ := fin_reach hx hk
+  exact fin_no_self k' x hk' hc
+
+theorem exists_fin_bound (g : Graph) : ∀ as : List Nat, (∀ c ∈ as, ∃ k, fin g k c = true) →
+    ∃ K, ∀ c ∈ as, fin g K c = true := by
+  intro as
+  induction as with
+  | nil => intro _; exact ⟨0, by simp⟩
+  | cons a as ih =>
+    intro h
+    obtain ⟨k1, h1⟩ := h a (by simp)
+    obtain ⟨k2, h2⟩ := ih (fun c hc => h c (by simp [hc]))
+    refine ⟨max k1 k2, ?_⟩
+    intro c hc
+    rcases List.mem_cons.mp hc with rfl | hc
+    · exact fin_mono g (Nat.le_max_left _ _) h1
+    · exact fin_mono g (Nat.le_max_right _ _) (h2 c hc)
+
+/-! ## acyclic_term -/
+
+theorem acyc_finite (g : Graph) : ∀ fuel path i, acyc g fuel path i = true → Finite g i := by
+  intro fuel
+  induction fuel with
+  | zero => intro path i h; simp [acyc] at h
+  | succ fuel ih =>
+    intro path i h
+    rw [acyc] at h
+    cases hn : node g i with
+    | var => exact ⟨1, by rw [fin, hn]⟩
+    | atom c => exact ⟨1, by rw [fin, hn]⟩
+    | str f as =>
+      rw [hn] at h
+      simp only [Bool.and_eq_true, List.all_eq_true] at h
+      obtain ⟨K, hK⟩ := exists_fin_bound g as (fun c hc => ih _ c (h.2 c hc))
+      refine ⟨K + 1, ?_⟩
+      rw [fin, hn]
+      simpa only [List.all_eq_true] using hK
+
+theorem noCycle_acyc (g : Graph) (r : Nat) (hN : NoCycle g r) :
+    ∀ fuel path i, Reach g r i → (∀ p ∈ path, ReachP g p i ∧ Reach g r p) → path.Nodup →
+      (∀ p ∈ path, p < g.size) → g.size + 1 ≤ fuel + path.length → acyc g fuel path i = true := by
+  intro fuel
+  induction fuel with
+  | zero =>
+    intro path i _ _ hnd hlt hf
+    have := nodup_length_le hnd hlt
+    omega
+  | succ fuel ih =>
+    intro path i hr hp hnd hlt hf
+    rw [acyc]
+    cases hn : node g i with
+    | var => rfl
+    | atom c => rfl
+    | str f as =>
+      have hnot : i ∉ path := by
+        intro hi
+        exact hN ⟨i, hr, (hp i hi).1⟩
+      simp only [Bool.and_eq_true, List.all_eq_true, Bool.not_eq_true', List.contains_eq_mem,
+        decide_eq_false_iff_not]
+      refine ⟨hnot, ?_⟩
+      intro c hc
+      have e : Edge g i c := ⟨f, as, hn, hc⟩
+      apply ih (i :: path) c (hr.tail e)
+      · intro p hp'
+        rcases List.mem_cons.mp hp' with rfl | hp'
+        · exact ⟨Relation.TransGen.single e, hr⟩
+        · exact ⟨(hp p hp').1.tail e, (hp p hp').2⟩
+      · exact List.nodup_cons.mpr ⟨hnot, hnd⟩
+      · intro p hp'
+        rcases List.mem_cons.mp hp' with rfl | hp'
+        · exact node_str_lt hn
+        · exact hlt p hp'
+      · simp only [List.length_cons]; omega
+
+theorem acyclic_iff_finite (g : Graph) (r : Nat) : acyclic g r = true ↔ Finite g r := by
+  constructor
+  · exact acyc_finite g _ [] r
+  · intro h
+    exact noCycle_acyc g r (finite_noCycle h) _ [] r Relation.ReflTransGen.refl
+      (by simp) List.nodup_nil (by simp) (by simp)
+
+theorem acyclic_iff_noCycle (g : Graph) (r : Nat) : acyclic g r = true ↔ NoCycle g r := by
+  constructor
+  · intro h; exact finite_noCycle ((acyclic_iff_finite g r).mp h)
+  · intro h
+    exact noCycle_acyc g r h _ [] r Relation.ReflTransGen.refl
+      (by simp) List.nodup_nil (by simp) (by simp)
+
+/-! ## ==/2, compare/3: the visited-pair walk -/
+
+def Good (g : Graph) (S : Seen) (x y : Nat) : Prop :=
+  x = y ∨ (x, y) ∈ S ∨ ∃ c, node g x = .atom c ∧ node g y = .atom c
+
+def Cons (g : Graph) (S : Seen) (p : Nat × Nat) : Prop :=
+  ∃ f as bs, node g p.1 = .str f as ∧ node g p.2 = .str f bs ∧ as.length = bs.length ∧
+    ∀ q ∈ as.zip bs, Good g S q.1 q.2
+
+theorem Good.mono {g : Graph} {S T : Seen} (h : S ⊆ T) {x y} : Good g S x y → Good g T x y := by
+  rintro (h1 | h1 | h1)
+  · exact Or.inl h1
+  · exact Or.inr (Or.inl (h h1))
+  · exact Or.inr (Or.inr h1)
+
+theorem Cons.mono {g : Graph} {S T : Seen} (h : S ⊆ T) {p} : Cons g S p → Cons g T p := by
+  rintro ⟨f, as, bs, h1, h2, h3, h4⟩
+  exact ⟨f, as, bs, h1, h2, h3, fun q hq => (h4 q hq).mono h⟩
+
+/-- post-condition of a successful (no difference found) comparison step. -/
+def StepOK (g : Graph) (step : Nat → Nat → Seen → Out) : Prop :=
+  ∀ a b s s', step a b s = .same s' →
+    s ⊆ s' ∧ Good g s' a b ∧ ∀ p ∈ s', p ∈ s ∨ Cons g s' p
+
+theorem cmpL_ok {g : Graph} {step} (hs : StepOK g step) :
+    ∀ ps s s', cmpL step ps s = .same s' →
+      s ⊆ s' ∧ (∀ q ∈ ps, Good g s' q.1 q.2) ∧ ∀ p ∈ s', p ∈ s ∨ Cons g s' p := by
+  intro ps
+  induction ps with
+  | nil =>
+    intro s s' h
+    simp only [cmpL, Out.same.injEq] at h
+    subst h
+    exact ⟨fun _ h => h, by simp, fun p hp => Or.inl hp⟩
+  | cons q ps ih =>
+    intro s s' h
+    obtain ⟨x, y⟩ := q
+    rw [cmpL] at h
+    cases h1 : step x y s with
+    | same s1 =>
+      rw [h1] at h
+      obtain ⟨a1, a2, a3⟩ := hs x y s s1 h1
+      obtain ⟨b1, b2, b3⟩ := ih s1 s' h
+      refine ⟨fun _ hp => b1 (a1 hp), ?_, ?_⟩
+      · intro q hq
+        rcases List.mem_cons.mp hq with rfl | hq
+        · exact a2.mono b1
+        · exact b2 q hq
+      · intro p hp
+        rcases b3 p hp with hp1 | hp1
+        · rcases a3 p hp1 with hp2 | hp2
+          · exact Or.inl hp2
+          · exact Or.inr (hp2.mono b1)
+        · exact Or.inr hp1
+    | fuel => rw [h1] at h; cases h
+    | lt => rw [h1] at h; cases h
+    | gt => rw [h1] at h; cases h
+    | vars _ _ => rw [h1] at h; cases h
+
+theorem cmpN_ok (g : Graph) : ∀ fuel, StepOK g (cmpN g fuel) := by
+  intro fuel
+  induction fuel with
+  | zero => intro a b s s' h; simp [cmpN] at h
+  | succ fuel ih =>
+    intro a b s s' h
+    rw [cmpN] at h
+    split at h
+    · next hab =>
+      simp only [Out.same.injEq] at h
+      subst h
+      exact ⟨fun _ h => h, Or.inl hab, fun p hp => Or.inl hp⟩
+    · split at h
+      all_goals try (cases h)
+      · next c d hna hnb =>
+        split at h
+        · cases h
+        · split at h
+          · cases h
+          · simp only [Out.same.injEq] at h
+            subst h
+            have : c = d := by omega
+            subst this
+            exact ⟨fun _ h => h, Or.inr (Or.inr ⟨c, hna, hnb⟩), fun p hp => Or.inl hp⟩
+      · next f as f' bs hna hnb =>
+        split at h
+        · next hc =>
+          simp only [Out.same.injEq] at h
+          subst h
+          refine ⟨fun _ h => h, Or.inr (Or.inl ?_), fun p hp => Or.inl hp⟩
+          simpa using hc
+        · split at h
+          · cases h
+          · split at h
+            · cases h
+            · split at h
+              · cases h
+              · split at h
+                · cases h
+                · have hl : as.length = bs.length := by omega
+                  have hf : f = f' := by omega
+                  subst hf
+                  obtain ⟨b1, b2, b3⟩ := cmpL_ok ih _ _ _ h
+                  have hmem : (a, b) ∈ s' := b1 (by simp)
+                  refine ⟨fun _ hp => b1 (by simp [hp]), Or.inr (Or.inl hmem), ?_⟩
+                  intro p hp
+                  rcases b3 p hp with hp1 | hp1
+                  · rcases List.mem_cons.mp hp1 with rfl | hp1
+                    · exact Or.inr ⟨f, as, bs, hna, hnb, hl, b2⟩
+                    · exact Or.inl hp1
+                  · exact Or.inr hp1
+
+
+theorem map_eq_of_zip {α} (u : Nat → α) : ∀ (as bs : List Nat), as.length = bs.length →
+    (∀ q ∈ as.zip bs, u q.1 = u q.2) → as.map u = bs.map u := by
+  intro as
+  induction as with
+  | nil => intro bs hl _; cases bs with
+    | nil => rfl
+    | cons _ _ => simp at hl
+  | cons a as ih =>
+    intro bs hl h
+    cases bs with
+    | nil => simp at hl
+    | cons b bs =>
+      simp only [List.map_cons, List.cons.injEq]
+      refine ⟨h (a, b) (by simp), ih bs (by simpa using hl) ?_⟩
+      intro q hq
+      exact h q (by simp [hq])
+
+theorem zip_of_map_eq {α} (u : Nat → α) : ∀ (as bs : List Nat), as.map u = bs.map u →
+    ∀ q ∈ as.zip bs, u q.1 = u q.2 := by
+  intro as
+  induction as with
+  | nil => intro bs _ q hq; simp at hq
+  | cons a as ih =>
+    intro bs h q hq
+    cases bs with
+    | nil => simp at hq
+    | cons b bs =>
+      simp only [List.map_cons, List.cons.injEq] at h
+      simp only [List.zip_cons_cons, List.mem_cons] at hq
+      rcases hq with rfl | hq
+      · exact h.1
+      · exact ih bs h.2 q hq
+
+/-- a set of pairs that is consistent with itself is a bisimulation: related nodes have the same
+unfolding at every depth. -/
+theorem good_unfold {g : Graph} {S : Seen} (hS : ∀ p ∈ S, Cons g S p) :
+    ∀ k x y, Good g S x y → unfold g k x = unfold g k y := by
+  intro k
+  induction k with
+  | zero => intro x y _; rfl
+  | succ k ih =>
+    intro x y h
+    rcases h with rfl | h | ⟨c, h1, h2⟩
+    · rfl
+    · obtain ⟨f, as, bs, h1, h2, h3, h4⟩ := hS _ h
+      simp only at h1 h2
+      rw [unfold, unfold, h1, h2]
+      simp only [Tree.node.injEq, true_and]
+      exact map_eq_of_zip _ as bs h3 (fun q hq => ih _ _ (h4 q hq))
+    · rw [unfold, unfold, h1, h2]
+
+/-- unfoldings agree at every depth. -/
+def SameTree (g : Graph) (a b : Nat) : Prop := ∀ k, unfold g k a = unfold g k b
+
+theorem cmp_same_sound {g : Graph} {a b s'} (h : cmp g a b = .same s') : SameTree g a b := by
+  obtain ⟨_, h2, h3⟩ := cmpN_ok g _ a b [] s' h
+  intro k
+  refine good_unfold ?_ k a b h2
+  intro p hp
+  rcases h3 p hp with h | h
+  · simp at h
+  · exact h
+
+/-! completeness: a reported difference is a difference of the unfoldings -/
+
+def IsDiff : Out → Prop
+  | .lt => True
+  | .gt => True
+  | .vars _ _ => True
+  | _ => False
+
+def StepDiff (g : Graph) (step : Nat → Nat → Seen → Out) : Prop :=
+  ∀ a b s, IsDiff (step a b s) → ∃ k, unfold g k a ≠ unfold g k b
+
+theorem cmpL_diff {g : Graph} {step} (hs : StepDiff g step) :
+    ∀ ps s, IsDiff (cmpL step ps s) → ∃ q ∈ ps, ∃ k, unfold g k q.1 ≠ unfold g k q.2 := by
+  intro ps
+  induction ps with
+  | nil => intro s h; simp [cmpL, IsDiff] at h
+  | cons q ps ih =>
+    intro s h
+    obtain ⟨x, y⟩ := q
+    rw [cmpL] at h
+    cases h1 : step x y s with
+    | same s1 =>
+      rw [h1] at h
+      obtain ⟨q, hq, hk⟩ := ih s1 h
+      exact ⟨q, by simp [hq], hk⟩
+    | fuel => rw [h1] at h; simp [IsDiff] at h
+    | lt => exact ⟨(x, y), by simp, hs x y s (by rw [h1]; trivial)⟩
+    | gt => exact ⟨(x, y), by simp, hs x y s (by rw [h1]; trivial)⟩
+    | vars _ _ => exact ⟨(x, y), by simp, hs x y s (by rw [h1]; trivial)⟩
+
+theorem cmpN_diff (g : Graph) : ∀ fuel, StepDiff g (cmpN g fuel) := by
+  intro fuel
+  induction fuel with
+  | zero => intro a b s h; simp [cmpN, IsDiff] at h
+  | succ fuel ih =>
+    intro a b s h
+    rw [cmpN] at h
+    split at h
+    · simp [IsDiff] at h
+    · next hab =>
+      cases hna : node g a with
+      | var =>
+        cases hnb : node g b with
+        | var => exact ⟨1, by rw [unfold, unfold, hna, hnb]; simp [hab]⟩
+        | atom d => exact ⟨1, by rw [unfold, unfold, hna, hnb]; simp⟩
+        | str f' bs => exact ⟨1, by rw [unfold, unfold, hna, hnb]; simp⟩
+      | atom c =>
+        cases hnb : node g b with
+        | var => exact ⟨1, by rw [unfold, unfold, hna, hnb]; simp⟩
+        | atom d =>
+          refine ⟨1, ?_⟩
+          rw [unfold, unfold, hna, hnb]
+          intro he
+          simp only [Tree.atom.injEq] at he
+          subst he
+          simp [hna, hnb, IsDiff] at h
+        | str f' bs => exact ⟨1, by rw [unfold, unfold, hna, hnb]; simp⟩
+      | str f as =>
+        cases hnb : node g b with
+        | var => exact ⟨1, by rw [unfold, unfold, hna, hnb]; simp⟩
+        | atom d => exact ⟨1, by rw [unfold, unfold, hna, hnb]; simp⟩
+        | str f' bs =>
+        simp only [hna, hnb] at h
+        split at h
+        · simp [IsDiff] at h
+        · have len_ne : ∀ k, as.length ≠ bs.length → unfold g (k+1) a ≠ unfold g (k+1) b := by
+            intro k hl he
+            rw [unfold, unfold, hna, hnb] at he
+            simp only [Tree.node.injEq] at he
+            have := congrArg List.length he.2
+            simp at this
+            exact hl this
+          have f_ne : ∀ k, f ≠ f' → unfold g (k+1) a ≠ unfold g (k+1) b := by
+            intro k hl he
+            rw [unfold, unfold, hna, hnb] at he
+            simp only [Tree.node.injEq] at he
+            exact hl he.1
+          split at h
+          · exact ⟨1, len_ne 0 (by omega)⟩
+          · split at h
+            · exact ⟨1, len_ne 0 (by omega)⟩
+            · split at h
+              · exact ⟨1, f_ne 0 (by omega)⟩
+              · split at h
+                · exact ⟨1, f_ne 0 (by omega)⟩
+                · obtain ⟨q, hq, k, hk⟩ := cmpL_diff ih _ _ h
+                  refine ⟨k + 1, ?_⟩
+                  intro he
+                  rw [unfold, unfold, hna, hnb] at he
+                  simp only [Tree.node.injEq] at he
+                  exact hk (zip_of_map_eq _ as bs he.2 q hq)
+
+
+/-! termination: the fuel of `cmp` is never exhausted -/
+
+theorem nodup_pairs_length_le {l : List (Nat × Nat)} {n : Nat} (hnd : l.Nodup)
+    (h : ∀ p ∈ l, p.1 < n ∧ p.2 < n) : l.length ≤ n * n := by
+  have := Finset.card_le_card (s := l.toFinset) (t := Finset.range n ×ˢ Finset.range n)
+    (by intro x hx; simp at hx ⊢; exact h x hx)
+  rwa [List.toFinset_card_of_nodup hnd, Finset.card_product, Finset.card_range] at this
+
+def Bounded (n : Nat) (s : Seen) : Prop := ∀ p ∈ s, p.1 < n ∧ p.2 < n
+
+def StepFuel (n F : Nat) (step : Nat → Nat → Seen → Out) : Prop :=
+  ∀ a b s, s.Nodup → Bounded n s → n * n + 1 ≤ F + s.length →
+    step a b s ≠ .fuel ∧
+    ∀ s', step a b s = .same s' → s'.Nodup ∧ Bounded n s' ∧ s.length ≤ s'.length
+
+theorem cmpL_fuel {n F step} (hs : StepFuel n F step) :
+    ∀ ps s, s.Nodup → Bounded n s → n * n + 1 ≤ F + s.length →
+      cmpL step ps s ≠ .fuel ∧
+      ∀ s', cmpL step ps s = .same s' → s'.Nodup ∧ Bounded n s' ∧ s.length ≤ s'.length := by
+  intro ps
+  induction ps with
+  | nil =>
+    intro s h1 h2 _
+    refine ⟨by simp [cmpL], ?_⟩
+    intro s' h
+    simp only [cmpL, Out.same.injEq] at h
+    subst h
+    exact ⟨h1, h2, Nat.le_refl _⟩
+  | cons q ps ih =>
+    intro s h1 h2 h3
+    obtain ⟨x, y⟩ := q
+    obtain ⟨a1, a2⟩ := hs x y s h1 h2 h3
+    rw [cmpL]
+    cases hst : step x y s with
+    | same s1 =>
+      obtain ⟨b1, b2, b3⟩ := a2 s1 hst
+      obtain ⟨c1, c2⟩ := ih s1 b1 b2 (by omega)
+      refine ⟨c1, ?_⟩
+      intro s' h
+      obtain ⟨d1, d2, d3⟩ := c2 s' h
+      exact ⟨d1, d2, by omega⟩
+    | fuel => exact absurd hst a1
+    | lt => exact ⟨by simp, by intro s' h; cases h⟩
+    | gt => exact ⟨by simp, by intro s' h; cases h⟩
+    | vars _ _ => exact ⟨by simp, by intro s' h; cases h⟩
+
+theorem cmpN_fuel (g : Graph) : ∀ fuel, StepFuel g.size fuel (cmpN g fuel) := by
+  intro fuel
+  induction fuel with
+  | zero =>
+    intro a b s h1 h2 h3
+    have := nodup_pairs_length_le h1 h2
+    omega
+  | succ fuel ih =>
+    intro a b s h1 h2 h3
+    have triv : ∀ s', Out.same s = Out.same s' → s'.Nodup ∧ Bounded g.size s' ∧ s.length ≤ s'.length := by
+      intro s' h
+      simp only [Out.same.injEq] at h
+      subst h
+      exact ⟨h1, h2, Nat.le_refl _⟩
+    rw [cmpN]
+    split
+    · exact ⟨by simp, triv⟩
+    · cases hna : node g a with
+      | var =>
+        cases hnb : node g b with
+        | var => exact ⟨by simp, by intro s' h; cases h⟩
+        | atom d => exact ⟨by simp, by intro s' h; cases h⟩
+        | str f' bs => exact ⟨by simp, by intro s' h; cases h⟩
+      | atom c =>
+        cases hnb : node g b with
+        | var => exact ⟨by simp, by intro s' h; cases h⟩
+        | atom d =>
+          simp only
+          split
+          · exact ⟨by simp, by intro s' h; cases h⟩
+          · split
+            · exact ⟨by simp, by intro s' h; cases h⟩
+            · exact ⟨by simp, triv⟩
+        | str f' bs => exact ⟨by simp, by intro s' h; cases h⟩
+      | str f as =>
+        cases hnb : node g b with
+        | var => exact ⟨by simp, by intro s' h; cases h⟩
+        | atom d => exact ⟨by simp, by intro s' h; cases h⟩
+        | str f' bs =>
+          simp only
+          split
+          · exact ⟨by simp, triv⟩
+          · next hc =>
+            split
+            · exact ⟨by simp, by intro s' h; cases h⟩
+            · split
+              · exact ⟨by simp, by intro s' h; cases h⟩
+              · split
+                · exact ⟨by simp, by intro s' h; cases h⟩
+                · split
+                  · exact ⟨by simp, by intro s' h; cases h⟩
+                  · have hnot : (a, b) ∉ s := by simpa using hc
+                    have hb : Bounded g.size ((a, b) :: s) := by
+                      intro p hp
+                      rcases List.mem_cons.mp hp with rfl | hp
+                      · exact ⟨node_str_lt hna, node_str_lt hnb⟩
+                      · exact h2 p hp
+                    obtain ⟨c1, c2⟩ := cmpL_fuel ih (as.zip bs) ((a, b) :: s)
+                      (List.nodup_cons.mpr ⟨hnot, h1⟩) hb (by simp only [List.length_cons]; omega)
+                    refine ⟨c1, ?_⟩
+                    intro s' h
+                    obtain ⟨d1, d2, d3⟩ := c2 s' h
+                    simp only [List.length_cons] at d3
+                    exact ⟨d1, d2, by omega⟩
+
+theorem cmp_ne_fuel (g : Graph) (a b : Nat) : cmp g a b ≠ .fuel :=
+  (cmpN_fuel g (pairFuel g) a b [] List.nodup_nil (by intro p hp; simp at hp)
+    (by simp [pairFuel])).1
+
+theorem eq_iff_sameTree (g : Graph) (a b : Nat) : eq g a b = true ↔ SameTree g a b := by
+  unfold eq
+  constructor
+  · intro h
+    cases hc : cmp g a b with
+    | same s' => exact cmp_same_sound hc
+    | fuel => rw [hc] at h; cases h
+    | lt => rw [hc] at h; cases h
+    | gt => rw [hc] at h; cases h
+    | vars _ _ => rw [hc] at h; cases h
+  · intro h
+    cases hc : cmp g a b with
+    | same s' => rfl
+    | fuel => exact absurd hc (cmp_ne_fuel g a b)
+    | lt =>
+      obtain ⟨k, hk⟩ := cmpN_diff g _ a b [] (by unfold cmp at hc; rw [hc]; trivial)
+      exact absurd (h k) hk
+    | gt =>
+      obtain ⟨k, hk⟩ := cmpN_diff g _ a b [] (by unfold cmp at hc; rw [hc]; trivial)
+      exact absurd (h k) hk
+    | vars _ _ =>
+      obtain ⟨k, hk⟩ := cmpN_diff g _ a b [] (by unfold cmp at hc; rw [hc]; trivial)
+      exact absurd (h k) hk
+
+/-! ## the visited-node walk -/
+
+/-- post-condition of one walk step that did not run out of fuel. -/
+def DfsOK (g : Graph) (step : Nat → List Nat → Option (List Nat)) : Prop :=
+  ∀ i s s', step i s = some s' →
+    (∃ t, s' = t ++ s) ∧ i ∈ s' ∧ (∀ x ∈ s', x ∈ s ∨ ∀ c, Edge g x c → c ∈ s')
+
+theorem dfsL_ok {g : Graph} {step} (hs : DfsOK g step) :
+    ∀ cs s s', dfsL step cs s = some s' →
+      (∃ t, s' = t ++ s) ∧ (∀ c ∈ cs, c ∈ s') ∧ (∀ x ∈ s', x ∈ s ∨ ∀ c, Edge g x c → c ∈ s') := by
+  intro cs
+  induction cs with
+  | nil =>
+    intro s s' h
+    simp only [dfsL, Option.some.injEq] at h
+    subst h
+    exact ⟨⟨[], rfl⟩, by simp, fun x hx => Or.inl hx⟩
+  | cons c cs ih =>
+    intro s s' h
+    rw [dfsL] at h
+    cases h1 : step c s with
+    | none => rw [h1] at h; cases h
+    | some s1 =>
+      rw [h1] at h
+      obtain ⟨⟨t1, a1⟩, a2, a3⟩ := hs c s s1 h1
+      obtain ⟨⟨t2, b1⟩, b2, b3⟩ := ih s1 s' h
+      have sub : ∀ x, x ∈ s1 → x ∈ s' := by intro x hx; rw [b1]; simp [hx]
+      refine ⟨⟨t2 ++ t1, by rw [b1, a1, List.append_assoc]⟩, ?_, ?_⟩
+      · intro x hx
+        rcases List.mem_cons.mp hx with rfl | hx
+        · exact sub _ a2
+        · exact b2 x hx
+      · intro x hx
+        rcases b3 x hx with h2 | h2
+        · rcases a3 x h2 with h3 | h3
+          · exact Or.inl h3
+          · exact Or.inr (fun c e => sub _ (h3 c e))
+        · exact Or.inr h2
+
+theorem dfs_ok (g : Graph) : ∀ fuel, DfsOK g (dfs g fuel) := by
+  intro fuel
+  induction fuel with
+  | zero => intro i s s' h; simp [dfs] at h
+  | succ fuel ih =>
+    intro i s s' h
+    rw [dfs] at h
+    split at h
+    · next hc =>
+      simp only [Option.some.injEq] at h
+      subst h
+      exact ⟨⟨[], rfl⟩, by simpa using hc, fun x hx => Or.inl hx⟩
+    · cases hn : node g i with
+      | var =>
+        simp only [hn, Option.some.injEq] at h
+        subst h
+        refine ⟨⟨[i], rfl⟩, by simp, ?_⟩
+        intro x hx
+        rcases List.mem_cons.mp hx with rfl | hx
+        · right; rintro c ⟨f, as, h1, _⟩; rw [hn] at h1; cases h1
+        · exact Or.inl hx
+      | atom c =>
+        simp only [hn, Option.some.injEq] at h
+        subst h
+        refine ⟨⟨[i], rfl⟩, by simp, ?_⟩
+        intro x hx
+        rcases List.mem_cons.mp hx with rfl | hx
+        · right; rintro c ⟨f, as, h1, _⟩; rw [hn] at h1; cases h1
+        · exact Or.inl hx
+      | str f as =>
+        simp only [hn] at h
+        obtain ⟨⟨t, b1⟩, b2, b3⟩ := dfsL_ok ih as (i :: s) s' h
+        have hi : i ∈ s' := by rw [b1]; simp
+        refine ⟨⟨t ++ [i], by rw [b1]; simp⟩, hi, ?_⟩
+        intro x hx
+        rcases b3 x hx with h2 | h2
+        · rcases List.mem_cons.mp h2 with rfl | h2
+          · right
+            rintro c ⟨f', as', h1, hc⟩
+            rw [hn] at h1
+            cases h1
+            exact b2 c hc
+          · exact Or.inl h2
+        · exact Or.inr h2
+
+/-- everything a finished walk has visited beyond its starting set is reachable from the node. -/
+def DfsReach (g : Graph) (step : Nat → List Nat → Option (List Nat)) : Prop :=
+  ∀ i s s', step i s = some s' → ∀ x ∈ s', x ∈ s ∨ Reach g i x
+
+theorem dfsL_reach {g : Graph} {step} (hs : DfsReach g step) :
+    ∀ cs s s', dfsL step cs s = some s' → ∀ x ∈ s', x ∈ s ∨ ∃ c ∈ cs, Reach g c x := by
+  intro cs
+  induction cs with
+  | nil =>
+    intro s s' h x hx
+    simp only [dfsL, Option.some.injEq] at h
+    subst h
+    exact Or.inl hx
+  | cons c cs ih =>
+    intro s s' h x hx
+    rw [dfsL] at h
+    cases h1 : step c s with
+    | none => rw [h1] at h; cases h
+    | some s1 =>
+      rw [h1] at h
+      rcases ih s1 s' h x hx with h2 | ⟨c', hc', hr⟩
+      · rcases hs c s s1 h1 x h2 with h3 | h3
+        · exact Or.inl h3
+        · exact Or.inr ⟨c, by simp, h3⟩
+      · exact Or.inr ⟨c', by simp [hc'], hr⟩
+
+theorem dfs_reach (g : Graph) : ∀ fuel, DfsReach g (dfs g fuel) := by
+  intro fuel
+  induction fuel with
+  | zero => intro i s s' h; simp [dfs] at h
+  | succ fuel ih =>
+    intro i s s' h x hx
+    rw [dfs] at h
+    split at h
+    · simp only [Option.some.injEq] at h
+      subst h
+      exact Or.inl hx
+    · cases hn : node g i with
+      | var =>
+        simp only [hn, Option.some.injEq] at h
+        subst h
+        rcases List.mem_cons.mp hx with rfl | hx
+        · exact Or.inr Relation.ReflTransGen.refl
+        · exact Or.inl hx
+      | atom c =>
+        simp only [hn, Option.some.injEq] at h
+        subst h
+        rcases List.mem_cons.mp hx with rfl | hx
+        · exact Or.inr Relation.ReflTransGen.refl
+        · exact Or.inl hx
+      | str f as =>
+        simp only [hn] at h
+        rcases dfsL_reach ih as (i :: s) s' h x hx with h2 | ⟨c, hc, hr⟩
+        · rcases List.mem_cons.mp h2 with rfl | h2
+          · exact Or.inr Relation.ReflTransGen.refl
+          · exact Or.inl h2
+        · exact Or.inr (Relation.ReflTransGen.head ⟨f, as, hn, hc⟩ hr)
+
+/-- fuel and duplicates: with `size + 1 ≤ fuel + |visited|` a step never runs out of fuel, and the
+visited list stays duplicate-free and inside the graph. -/
+def DfsFuel (g : Graph) (F : Nat) (step : Nat → List Nat → Option (List Nat)) : Prop :=
+  ∀ i s, i < g.size → s.Nodup → (∀ x ∈ s, x < g.size) → g.size + 1 ≤ F + s.length →
+    ∃ s', step i s = some s' ∧ s'.Nodup ∧ (∀ x ∈ s', x < g.size) ∧ s.length ≤ s'.length
+
+theorem dfsL_fuel {g : Graph} {F step} (hs : DfsFuel g F step) :
+    ∀ cs s, (∀ c ∈ cs, c < g.size) → s.Nodup → (∀ x ∈ s, x < g.size) → g.size + 1 ≤ F + s.length →
+      ∃ s', dfsL step cs s = some s' ∧ s'.Nodup ∧ (∀ x ∈ s', x < g.size) ∧ s.length ≤ s'.length := by
+  intro cs
+  induction cs with
+  | nil => intro s _ h1 h2 _; exact ⟨s, rfl, h1, h2, Nat.le_refl _⟩
+  | cons c cs ih =>
+    intro s hc h1 h2 h3
+    obtain ⟨s1, a1, a2, a3, a4⟩ := hs c s (hc c (by simp)) h1 h2 h3
+    obtain ⟨s2, b1, b2, b3, b4⟩ := ih s1 (fun c' h => hc c' (by simp [h])) a2 a3 (by omega)
+    exact ⟨s2, by rw [dfsL, a1]; exact b1, b2, b3, by omega⟩
+
+theorem dfs_fuel (g : Graph) (hw : WF g) : ∀ fuel, DfsFuel g fuel (dfs g fuel) := by
+  intro fuel
+  induction fuel with
+  | zero =>
+    intro i s _ h1 h2 h3
+    have := nodup_length_le h1 h2
+    omega
+  | succ fuel ih =>
+    intro i s hi h1 h2 h3
+    rw [dfs]
+    split
+    · exact ⟨s, rfl, h1, h2, Nat.le_refl _⟩
+    · next hc =>
+      have hnot : i ∉ s := by simpa using hc
+      have nd : (i :: s).Nodup := List.nodup_cons.mpr ⟨hnot, h1⟩
+      have bd : ∀ x ∈ i :: s, x < g.size := by
+        intro x hx
+        rcases List.mem_cons.mp hx with rfl | hx
+        · exact hi
+        · exact h2 x hx
+      cases hn : node g i with
+      | var => exact ⟨i :: s, rfl, nd, bd, by simp⟩
+      | atom c => exact ⟨i :: s, rfl, nd, bd, by simp⟩
+      | str f as =>
+        obtain ⟨s', b1, b2, b3, b4⟩ := dfsL_fuel ih as (i :: s) (hw i f as hn) nd bd
+          (by simp only [List.length_cons]; omega)
+        simp only [List.length_cons] at b4
+        exact ⟨s', b1, b2, b3, by omega⟩
+
+theorem dfs_top (g : Graph) (hw : WF g) (r : Nat) (hr : r < g.size) :
+    ∃ s', dfs g (g.size + 1) r [] = some s' ∧ s'.Nodup ∧ ∀ x, x ∈ s' ↔ Reach g r x := by
+  obtain ⟨s', h1, h2, _, _⟩ := dfs_fuel g hw (g.size + 1) r [] hr List.nodup_nil (by simp) (by simp)
+  obtain ⟨_, a2, a3⟩ := dfs_ok g _ r [] s' h1
+  refine ⟨s', h1, h2, ?_⟩
+  intro x
+  constructor
+  · intro hx
+    rcases dfs_reach g _ r [] s' h1 x hx with h | h
+    · simp at h
+    · exact h
+  · intro hx
+    induction hx with
+    | refl => exact a2
+    | tail _ e ih =>
+      rcases a3 _ ih with h | h
+      · simp at h
+      · exact h _ e
+
+theorem reachList_spec (g : Graph) (hw : WF g) (r : Nat) (hr : r < g.size) :
+    (reachList g r).Nodup ∧ ∀ x, x ∈ reachList g r ↔ Reach g r x := by
+  obtain ⟨s', h1, h2, h3⟩ := dfs_top g hw r hr
+  unfold reachList
+  rw [h1]
+  exact ⟨List.nodup_reverse.mpr h2, fun x => by simp [h3]⟩
+
+theorem isVar_iff (g : Graph) (i : Nat) : isVar g i = true ↔ node g i = .var := by
+  unfold isVar
+  cases node g i <;> simp
+
+theorem termVars_spec (g : Graph) (hw : WF g) (r : Nat) (hr : r < g.size) :
+    (termVars g r).Nodup ∧ ∀ x, x ∈ termVars g r ↔ (Reach g r x ∧ node g x = .var) := by
+  obtain ⟨h1, h2⟩ := reachList_spec g hw r hr
+  unfold termVars
+  refine ⟨h1.filter _, ?_⟩
+  intro x
+  simp [List.mem_filter, h2, isVar_iff]
+
+theorem ground_spec (g : Graph) (hw : WF g) (r : Nat) (hr : r < g.size) :
+    ground g r = true ↔ ∀ x, Reach g r x → node g x ≠ .var := by
+  obtain ⟨_, h2⟩ := termVars_spec g hw r hr
+  unfold ground
+  rw [List.isEmpty_iff]
+  constructor
+  · intro h x hx hv
+    have : x ∈ termVars g r := (h2 x).mpr ⟨hx, hv⟩
+    rw [h] at this
+    simp at this
+  · intro h
+    apply List.eq_nil_iff_forall_not_mem.mpr
+    intro x hx
+    exact h x ((h2 x).mp hx).1 ((h2 x).mp hx).2
+
+/-! ## copy_term -/
+
+/-- unfolding with the variable leaves renamed by `ρ`. -/
+def unfoldR (ρ : Nat → Nat) (g : Graph) : Nat → Nat → Tree
+  | 0, _ => .cut
+  | k+1, i =>
+    match node g i with
+    | .var => .var (ρ i)
+    | .atom c => .atom c
+    | .str f as => .node f (as.map (unfoldR ρ g k))
+
+theorem unfoldR_id (g : Graph) : ∀ k i, unfoldR id g k i = unfold g k i := by
+  intro k
+  induction k with
+  | zero => intro i; rfl
+  | succ k ih =>
+    intro i
+    rw [unfoldR, unfold]
+    cases node g i with
+    | var => rfl
+    | atom c => rfl
+    | str f as => simp only [Tree.node.injEq, true_and]; exact List.map_congr_left (fun c _ => ih c)
+
+theorem indexOf_lt {l : List Nat} {x : Nat} (h : x ∈ l) : indexOf l x < l.length := by
+  induction l with
+  | nil => simp at h
+  | cons y ys ih =>
+    rw [indexOf]
+    split
+    · simp
+    · next hne =>
+      rcases List.mem_cons.mp h with rfl | h
+      · exact absurd rfl hne
+      · simp only [List.length_cons]; have := ih h; omega
+
+theorem getD_indexOf {α} (l : List Nat) (u : Nat → α) (d : α) {x : Nat} (h : x ∈ l) :
+    (l.map u).getD (indexOf l x) d = u x := by
+  induction l with
+  | nil => simp at h
+  | cons y ys ih =>
+    rw [indexOf]
+    split
+    · next he => subst he; simp
+    · next hne =>
+      rcases List.mem_cons.mp h with rfl | h
+      · exact absurd rfl hne
+      · simpa using ih h
+
+theorem indexOf_inj {l : List Nat} {x y : Nat} (hx : x ∈ l) (hy : y ∈ l)
+    (h : indexOf l x = indexOf l y) : x = y := by
+  have h1 := getD_indexOf l id 0 hx
+  have h2 := getD_indexOf l id 0 hy
+  rw [h] at h1
+  exact h1.symm.trans h2
+
+theorem node_append_left (g : Graph) (arr : Array Node) {i : Nat} (h : i < g.size) :
+    node (g ++ arr) i = node g i := by
+  unfold node
+  simp [Array.getD, h, Array.getElem_append_left, Nat.lt_of_lt_of_le h (Nat.le_add_right _ _)]
+
+theorem node_append_right (g : Graph) (l : List Node) (j : Nat) :
+    node (g ++ l.toArray) (g.size + j) = l.getD j .var := by
+  unfold node
+  by_cases hj : j < l.length
+  · simp [Array.getD, hj, Array.getElem_append_right, List.getD_eq_getElem?_getD]
+  · simp [Array.getD, hj, List.getD_eq_getElem?_getD]
+
+/-- The copy: (1) the old nodes are untouched; (2) the new root denotes the tree of the old root
+with every variable `x` renamed to the NEW node `fwd … x`; (3) the renaming is injective on the
+reachable nodes and its values lie outside the old graph. -/
+theorem copy_spec (g : Graph) (hw : WF g) (r : Nat) (hr : r < g.size) :
+    let l := reachList g r
+    let φ := fwd g.size l
+    (∀ i, i < g.size → node (copy g r).1 i = node g i) ∧
+    (∀ k, unfold (copy g r).1 k (copy g r).2 = unfoldR φ g k r) ∧
+    (∀ x, g.size ≤ φ x) ∧
+    (∀ x y, Reach g r x → Reach g r y → φ x = φ y → x = y) := by
+  intro l φ
+  obtain ⟨_, hl⟩ := reachList_spec g hw r hr
+  have hnode : ∀ x, x ∈ l → node (copy g r).1 (φ x) = mapNode φ (node g x) := by
+    intro x hx
+    show node (g ++ (l.map fun i => mapNode φ (node g i)).toArray) (g.size + indexOf l x) = _
+    rw [node_append_right]
+    exact getD_indexOf l (fun i => mapNode φ (node g i)) .var hx
+  refine ⟨fun i hi => node_append_left g _ hi, ?_, fun x => Nat.le_add_right _ _, ?_⟩
+  · have key : ∀ k x, x ∈ l → unfold (copy g r).1 k (φ x) = unfoldR φ g k x := by
+      intro k
+      induction k with
+      | zero => intro x _; rfl
+      | succ k ih =>
+        intro x hx
+        rw [unfold, unfoldR, hnode x hx]
+        cases hn : node g x with
+        | var => rfl
+        | atom c => rfl
+        | str f as =>
+          simp only [mapNode, List.map_map, Tree.node.injEq, true_and]
+          apply List.map_congr_left
+          intro c hc
+          exact ih c ((hl c).mpr (((hl x).mp hx).tail ⟨f, as, hn, hc⟩))
+    intro k
+    exact key k r ((hl r).mpr Relation.ReflTransGen.refl)
+  · intro x y hx hy h
+    exact indexOf_inj ((hl x).mpr hx) ((hl y).mpr hy) (Nat.add_left_cancel h)
 
 end Scryer.Graph
